@@ -1,0 +1,8 @@
+//go:build verif
+// +build verif
+
+package vm
+
+// VerifMemory exposes the allocation counter of the last run to the verification
+// harness in /verif (build tag "verif" only; not part of the library).
+func (vm *VM) VerifMemory() int { return vm.memory }
